@@ -91,6 +91,15 @@ def clause1_pop(ctx, P):
                    "a routing entry is removed from the table and then neither completed nor freed on this path: the caller never "
                    "gets the owner's answer (only a timeout), and the outcome depends on a third peer's disconnect" if bad else
                    "popped entry is completed on all %d success path(s)" % cnt, witness=bad.witness() if bad else None)
+    # the reply handler POPS the entry it found before doing anything that can fail: a reply that is only looked up leaves the
+    # request registered (with its timer already stopped) whenever the handler bails out
+    hrr = P.fn("router.c:handle_routing_response")
+    pops = [rm for rm in _rm_calls(hrr) if len(rm.a) > 2 and not P.is_null(rm.a[2])]
+    gets = hrr.calls("hashtable_get_route_table")
+    ctx.ob("C03.1 R-OWN", hrr, "reply-pops-the-entry", bool(pops) and not gets,
+           "handle_routing_response() %s: if it returns early (reply cannot be copied) the request stays in the owner's table with a "
+           "disarmed timer - no answer by the deadline, and a repeated reply is forwarded later" %
+           ("looks the entry up with hashtable_get instead of removing it" if gets else "does not remove the entry with a value-yielding remove"))
     # the caller-gone sweep touches only entries of the leaving peer
     sw = P.fn("router.c:remove_peer_from_routing_table")
     for c in sw.calls(("hashtable_remove_route_table", "clear_routing_entry")):
@@ -145,9 +154,9 @@ def clause1_pop(ctx, P):
             ctx.ob("C03.1 R-LOOP", g, Q.ordinal_site(g, c, P) + ":visits-every-occupied-slot", not extra,
                    "the walk over the routing table skips occupied slots: the removal is additionally guarded by %s (the hop word "
                    "belongs to the HOME bucket of a key, not to the slot that stores it)" % "; ".join(fmt_atom(a, p) for a, p in extra[:3]))
-    if n < 3:
-        raise AnalysisBroken("expected >= 3 value-yielding removals from the routing table, found %d" % n)
-    ctx.floor("C03.1 R-OWN", 3)
+    if n < 2:
+        raise AnalysisBroken("expected >= 2 value-yielding removals from the routing table, found %d" % n)
+    ctx.floor("C03.1 R-OWN", 3)   # two sweeps/handlers with a value-yielding remove + the reply-pops obligation
 
 
 def _completion_functions(P):
